@@ -193,7 +193,11 @@ impl<'a> DataRowIteratorTestData<'a> {
             .collect()
     }
 
-    fn generate_expected_entries(&self, stmt_entries: &[DataEntry]) -> Vec<ExpectedEntry<'a>> {
+    fn generate_expected_entries(
+        &self,
+        stmt_entries: &[DataEntry],
+        expanded_x: &[usize],
+    ) -> Vec<ExpectedEntry<'a>> {
         self.expected_indices
             .iter()
             .map(|index| match index {
@@ -202,11 +206,17 @@ impl<'a> DataRowIteratorTestData<'a> {
                     signal_index,
                 } => {
                     let signal = &self.signals[*signal_index];
-                    let value = match &stmt_entries[*entry_index] {
-                        DataEntry::Number(n) => ExpectedValue::Value(n & bit_mask(signal.bits)),
-                        DataEntry::Z => ExpectedValue::Z,
-                        DataEntry::X => ExpectedValue::X,
-                        _ => unreachable!(),
+                    let value = if expanded_x.contains(entry_index) {
+                        // The column also drives an input whose `X` was expanded: for the expected
+                        // value it is still a don't care
+                        ExpectedValue::X
+                    } else {
+                        match &stmt_entries[*entry_index] {
+                            DataEntry::Number(n) => ExpectedValue::Value(n & bit_mask(signal.bits)),
+                            DataEntry::Z => ExpectedValue::Z,
+                            DataEntry::X => ExpectedValue::X,
+                            _ => unreachable!(),
+                        }
                     };
                     ExpectedEntry { signal, value }
                 }
@@ -362,6 +372,7 @@ impl<'a> DataRowIteratorTestData<'a> {
                 break;
             };
             let mut row_result = self.cache.pop().unwrap();
+            row_result.expanded_x.push(x_index);
             row_result.entries[x_index] = DataEntry::Number(1);
             self.cache.push(row_result.clone());
             row_result.entries[x_index] = DataEntry::Number(0);
@@ -437,7 +448,7 @@ impl<'a> DataRowIteratorTestData<'a> {
 
         let inputs = self.generate_input_entries(&row_result.entries, &changed);
 
-        let expected = self.generate_expected_entries(&row_result.entries);
+        let expected = self.generate_expected_entries(&row_result.entries, &row_result.expanded_x);
 
         let line = row_result.line;
         let update_output = row_result.update_output;
